@@ -808,6 +808,18 @@ KINDS = {  # name -> (slot, recipe, rows, cols)
     "sl": ("sl_b", {"k": "sliced_cls", "of": DN, "s0": [0, 2], "s1": [0, 2]}, 2, 2),
     "cat": ("cat_b", {"k": "concat", "args": [DN, DG], "axis": 0}, 6, N),
     "psd": ("P", _psd(SP), N, N),
+    # pass-through (identity) factors in first / last position: their product IS the operand (aliasing hazards)
+    "kronsum_if": ("ks_if", {"k": "kronsum", "args": [I2, D2]}, 4, 4),
+    "kronsum_il": ("ks_il", {"k": "kronsum", "args": [D2, I2]}, 4, 4),
+    "kron_if": ("kr_if", {"k": "kron", "args": [I2, D2]}, 4, 4),
+    "kron_il": ("kr_il", {"k": "kron", "args": [D2, I2]}, 4, 4),
+    "prod_if": ("pr_if", {"k": "product", "args": [ID, DN]}, N, N),
+    "prod_il": ("pr_il", {"k": "product", "args": [DN, ID]}, N, N),
+    "sum_if": ("su_if", {"k": "sum", "args": [ID, DN]}, N, N),
+    "bd_if": ("bd_if", {"k": "blockdiag", "args": [I2, D2]}, 4, 4),
+    "sliced_full": ("sl_full", {"k": "sliced_cls", "of": DN, "s0": [0, N], "s1": [0, N]}, N, N),
+    "scalar_one": ("sc_one", {"k": "scalar", "c": 1.0, "n": N}, N, N),
+    "tr_identity": ("tr_id", {"k": "transpose_cls", "of": ID}, N, N),
 }
 for _k, (_slot, _r, _rows, _cols) in KINDS.items():
     ALPHABET["mv_" + _k] = [mk(_slot, _r), call("matvec", A=S(_slot), x=arr([_cols], "f8", 31))]
@@ -895,8 +907,9 @@ def phase_sweep(run, pool, maxlen):
 
     def all_jobs():
         for j, p in enumerate(large):
-            yield {"id": "L%d" % j, "kind": "program", "program": p["program"], "letters": ["large:" + p["name"]],
-                   "want_program": False, "deadline": 240, "run_seed": "large:" + p["name"]}
+            tag = ("matrix:" if p["program"]["config"].get("matrix") else "large:") + p["name"]
+            yield {"id": "L%d" % j, "kind": "program", "program": p["program"], "letters": [tag],
+                   "want_program": False, "deadline": 240, "run_seed": tag}
         for i, L in enumerate(sweep_histories(maxlen, full_pairs=maxlen >= 3, seed=run.seed)):
             yield {"id": i, "kind": "program", "program": history(L), "letters": list(L), "want_program": False,
                    "want_results": True, "deadline": 240, "run_seed": "sweep:" + "+".join(L)}
